@@ -19,13 +19,14 @@ RULE = ("streams: wrapper = random small libraries (str / int / list / list-of-N
         "keep_math_mode in {None, True, False}, custom encoder / decoder, the documented ValueError for conflicting options): "
         "scope / type oracle only; roundtrip (TEST, not proof) = texts over ASCII letters, digits, accented Latin letters "
         "(U+00C0-U+017F minus single characters that pristine pylatexenc itself does not round-trip, computed at run time), "
-        "punctuation, TeX specials, URLs, $...$ spans, without -- `` '' !` ?` ^ and the double quote, placed in a field, a NameParts "
+        "punctuation, TeX specials, URLs, $...$ spans, placed in a field, a NameParts "
         "part and an @string, encoded (default / keep_math x enclose_urls options) then decoded; letter sweep (TEST) = EVERY "
         "letter of U+00C0-U+024F, U+1E00-U+1EFF (incl. the Vietnamese letters with two diacritics), Greek U+0370-U+03FF and "
         "Cyrillic U+0400-U+04FF, minus exactly the single characters that pristine pylatexenc (called directly) does not "
         "round-trip (computed at run time), packed many per value in order and shuffled, bare / between ASCII letters / as "
         "space-separated words, under all five option combinations, placed in a field value, as NameParts words and in an "
-        "@string value; plus random texts as above drawing their accented letters from that whole alphabet; protected regions (TEST) = "
+        "@string value; the texts with -- `` '' !` ?` ^ \" and every accented Latin letter form their own stream (k12): they are run, "
+        "failures there are known finding K12; plus random texts as above drawing their accented letters from that whole alphabet; protected regions (TEST) = "
         "values with exactly ONE $...$ span whose body holds backslash-escaped TeX specials (\\$ \\% \\& \\{ \\} \\# \\_ , also doubled, first / "
         "last in the body), the span being the whole value, at its very start, at its very end, in the middle, glued to letters / "
         "accented letters / brackets / TeX specials, next to an escaped dollar OUTSIDE the span: bounded-exhaustive over (special x "
@@ -313,7 +314,10 @@ SWEEP_RANGES = [(0xC0, 0x250), (0x1E00, 0x1F00), (0x370, 0x400), (0x400, 0x500)]
 SWEEP = [chr(c) for a, b in SWEEP_RANGES for c in range(a, b) if chr(c).isalpha()]
 PUNCT = list(",;:.!?()[]/*+=<>|@-'")
 SPECIALS = list("&%#_{}~\\$")
-FORBIDDEN = ["--", "``", "''", "!`", "?`", "^", '"']
+FORBIDDEN = ["--", "``", "''", "!`", "?`", "^", '"']      # known finding K12 (with the accented letters computed at run time)
+ACCENTED_SET = set(ACCENTED)
+K12_FIXED = ["pp. 1--10", "a---b", "``x''", 'say "hi"', "x^2", "!`Hola!", "?`Que?", "Erd\u0171s", "\u0126al", "a--", "--", "^", '"',
+             "1--2 and 3--4", "it''s", "a'b", "a`b", "- -", "a-b", "wh?` !`", "\u0170\u0171\u0166\u0167\u013f\u0140\u0138\u0149"]
 URL_RE = [re.compile(r"(https?://\S*\.\S*)"), re.compile(r"(www.\S*\.\S*)")]
 
 
@@ -459,6 +463,14 @@ def generate(rng, tier):
             texts.append(t)
     for i, t in enumerate(texts):
         cases.append({"stream": "roundtrip", "input": {"kind": "roundtrip", "text": t, "opts": ENC_OPTS[i % len(ENC_OPTS)] if i >= len(fixed) else [None, None]}})
+    # K12: the texts of the named alphabet that the streams above leave out (ligature sequences, " ^, every accented Latin letter)
+    k12 = list(K12_FIXED) + [c for c in ACCENTED]
+    for _ in range(120 if quick else 4000):
+        t = gen_text(rng)
+        j = rng.randint(0, len(t))
+        k12.append(t[:j] + rng.choice(FORBIDDEN) + t[j:])
+    for i, t in enumerate(k12):
+        cases.append({"stream": "roundtrip", "input": {"kind": "roundtrip", "text": t, "opts": ENC_OPTS[i % len(ENC_OPTS)], "k12": True}})
     # letter sweep: "drop" = the single characters pristine pylatexenc does not round-trip are removed from the text at run time
     for i, (t, every_opt) in enumerate(sweep_texts(rng, quick)):
         for o in (ENC_OPTS if every_opt else [ENC_OPTS[i % len(ENC_OPTS)]]):
@@ -1134,6 +1146,12 @@ def pristine_roundtrips(text):
         return False
 
 
+def k12_class(text):
+    """K12: a TeX ligature sequence, one of the characters " ^, or an accented Latin letter that pristine pylatexenc does not
+    round-trip as a single character"""
+    return (not allowed_text(text)) or any(c in ACCENTED_SET and c in third_party_not_injective() for c in text)
+
+
 def rt_known_class(text, keep_math, enclose_urls):
     # K5 = several spans: at least three dollars that can open / close a span; a backslash-escaped dollar is no delimiter (neither
     # for the rule in latex_encoding.py nor for the decoder), so ONE span with \\$ inside is not of this class
@@ -1144,6 +1162,8 @@ def rt_known_class(text, keep_math, enclose_urls):
             for m in rx.finditer(text):
                 if any(c in m.group(1) for c in "%~&{}\\$"):
                     return "K6"
+    if k12_class(text):
+        return "K12"
     return None
 
 
@@ -1163,7 +1183,10 @@ def impl_roundtrip(case):
         text = "".join(c for c in text if c not in bad)
     words = [w for w in text.split(" ") if w] if inp.get("words") else []
     first = words or [text]
-    if any(c in bad for c in text) or not allowed_text(text) or (inp.get("pristine") and not pristine_roundtrips(text)):
+    # outside the alphabet the property names (letters beyond U+00C0-U+017F that the third-party tables do not invert; the
+    # protected-region stream's own filter): excluded.  Inside it (ligature sequences, " ^, accented Latin letters) the text
+    # IS run; a failure there is known finding K12
+    if any(c in bad and c not in ACCENTED_SET for c in text) or (inp.get("pristine") and not pristine_roundtrips(text)):
         rec["oracle"] = {"ok": True, "detail": ""}
         rec["tags"] = ["roundtrip:excluded-third-party-noninjective"]
         rec["nontrivial"] = False
@@ -1206,7 +1229,7 @@ def impl_roundtrip(case):
             rec["oracle"]["known"] = known
         rec["tags"] = ["roundtrip-fail:" + (known or "UNKNOWN")]
     else:
-        rec["tags"] = ["roundtrip:ok"] + (["roundtrip:letter-sweep"] if inp.get("drop") and not inp.get("pristine") else []) + \
+        rec["tags"] = ["roundtrip:ok"] + (["roundtrip:k12-stream-ok"] if inp.get("k12") else []) + (["roundtrip:letter-sweep"] if inp.get("drop") and not inp.get("pristine") else []) + \
             (["roundtrip:escaped-special-inside-math"] if inp.get("pristine") else [])
     rec["summary"] = repr(mid[1])[:200]
     return rec
